@@ -46,25 +46,11 @@ Definition run_pipeline (c os code nparams info0 info1 excaddr : Z) (ctx : optio
 
 (* ---------------------------------------------------------------- Q cases: the whole path with a DECODED instruction
    arch = MINIDUMP_SYSTEM_INFO.processor_architecture; os 0 = Windows, 1 = Linux; flags = exception_flags (si_code).
-   Glue outside the anchored code (minidump crate: get_crash_address, CrashReason::from_exception), hand-written
-   and validated by the correspondence run only. *)
-(* os: 0 Windows (platform id 2), 1 Linux (0x8201), 2 macOS (0x8101), 3 Solaris (0x8202: an OS without GPF shape) *)
-Definition q_os (os : Z) : gos := if os =? 0 then OsWindows else if os =? 1 then OsLinux else if os =? 2 then OsMacOs else OsOther.
-Definition q_address (c : gcpu) (os code nparams info1 excaddr : Z) : Z :=
-  let a := p_address os code nparams info1 excaddr in
-  match pointer_width c with WBits32 => a mod 4294967296 | _ => a end.
-Definition q_reason (c : gcpu) (os code flags nparams info0 : Z) : reason :=
-  if os =? 0 then
-    (if (code =? WIN_EXCEPTION_ACCESS_VIOLATION) && (1 <=? nparams) && ((info0 =? 0) || (info0 =? 1) || (info0 =? 8))
-     then RWinAccessViolation info0 else ROther)
-  else if os =? 1 then
-    (if (code =? 11) && negb ((1 <=? flags) && (flags <=? 4)) then RLinuxGeneral 11 flags
-     else if (code =? 7) && negb ((1 <=? flags) && (flags <=? 5)) then RLinuxGeneral 7 flags
-     else ROther)
-  else if os =? 2 then
-    (* EXC_BAD_ACCESS (1) on x86 / x86_64 with code EXC_I386_GPFLT (13) *)
-    (if (code =? 1) && (gcpu_eqb c GX86 || gcpu_eqb c GX86_64) && (flags =? 13) then RMacBadAccessX86Gpflt else ROther)
-  else ROther.
+   The crash address / crash reason / os classification are Pipeline.v's crash_address / reason_of / os_class
+   (regenerated tables + pinned fragments of the minidump crate). *)
+(* os index of the case line -> MINIDUMP_SYSTEM_INFO.platform_id (the harness uses the same table) *)
+Definition q_platform_id (os : Z) : Z :=
+  nth (Z.to_nat os) [2; 33281; 33025; 33282; 33283; 33026; 3] 33282.
 
 Definition mk_operand (e : Z * Z * Z * Z) : memoperand :=
   let '(b, i, sc, d) := e in
@@ -94,8 +80,8 @@ Definition run_q (arch os code flags nparams info0 info1 excaddr : Z) (ctx : opt
            (dec : option (bool * bool * Z * Z * Z * list (Z * Z * Z * Z))) (kind : Z) (regs : list (Z * Z * Z))
   : list Z * list (list Z) * (list (list Z) * list Z) :=
   let c := cpu_of_arch arch in
-  let address := q_address c os code nparams info1 excaddr in
-  let r := q_reason c os code flags nparams info0 in
+  let pid := q_platform_id os in
+  let e := {| er_code := code; er_flags := flags; er_nparams := nparams; er_info0 := info0; er_info1 := info1; er_address := excaddr |} in
   let pc := option_map (fun vals : list Z => {| pc_size := 8; pc_regs := List.combine (map Z.of_nat (seq 0 (length vals))) vals |}) ctx in
   let analysis := fun x =>
     if gcpu_eqb c GX86_64 then
@@ -106,6 +92,6 @@ Definition run_q (arch os code flags nparams info0 info1 excaddr : Z) (ctx : opt
       | None => None
       end
     else None in
-  (out_adj (pipeline_adj analysis c (q_os os) r address pc),
-   map out_flip (pipeline analysis c (q_os os) r address pc (mk_regions kind regs)),
+  (out_adj (dump_adj analysis arch pid e pc),
+   map out_flip (dump_pipeline analysis arch pid e pc (mk_regions kind regs)),
    out_analysis (the_analysis analysis pc)).
